@@ -127,6 +127,33 @@ pub fn scenarios() -> Vec<Scenario> {
             name: "proc-readlink-exe",
             ops: vec![o(Op::ProcNew { ctor: ProcCtor::New, store: 0 }), o(Op::ProcReadlink { handle: Some(0), base: Base::SelfP, path: s("exe"), bufsz: 256 })],
         },
+        // entries that only exist on an unmasked procfs (ProcfsHandle::new() is subset=pid): the
+        // lookup needs a second, unmasked handle in the middle of the call
+        Scenario {
+            name: "proc-open-follow-masked-link",
+            ops: vec![
+                o(Op::ProcNew { ctor: ProcCtor::New, store: 0 }),
+                o(Op::ProcOpen { handle: Some(0), base: Base::Root, path: s("mounts"), flags: libc::O_PATH, follow: true }),
+            ],
+        },
+        Scenario {
+            name: "proc-open-follow-masked-link-rdonly",
+            ops: vec![
+                o(Op::ProcNew { ctor: ProcCtor::New, store: 0 }),
+                o(Op::ProcOpen { handle: Some(0), base: Base::Root, path: s("net"), flags: libc::O_RDONLY | libc::O_DIRECTORY, follow: true }),
+            ],
+        },
+        Scenario {
+            name: "proc-open-masked-file",
+            ops: vec![
+                o(Op::ProcNew { ctor: ProcCtor::New, store: 0 }),
+                o(Op::ProcOpen { handle: Some(0), base: Base::Root, path: s("sys/kernel/ostype"), flags: libc::O_RDONLY, follow: false }),
+            ],
+        },
+        Scenario {
+            name: "proc-readlink-masked-link",
+            ops: vec![o(Op::ProcNew { ctor: ProcCtor::New, store: 0 }), o(Op::ProcReadlink { handle: Some(0), base: Base::Root, path: s("mounts"), bufsz: 256 })],
+        },
         Scenario { name: "proc-open-missing", ops: vec![o(Op::ProcNew { ctor: ProcCtor::New, store: 0 }), o(Op::ProcOpen { handle: Some(0), base: Base::Root, path: s("nope/missing"), flags: libc::O_RDONLY, follow: false })] },
         Scenario { name: "open-root", ops: vec![o(Op::OpenRoot { path: s("/mnt/w/root/a") })] },
         Scenario { name: "clone-root", ops: vec![o(Op::CloneRoot)] },
